@@ -67,6 +67,12 @@ def gen_tree(rng, root, feature):
             mk(os.path.join(d, 'jonly-%d.doc' % len(d)), 'file', b'hidden from Joliet ' + d.encode())
         mk('listed-out.bak', 'file', b'excluded by list')
         mk('listed-hide.key', 'file', b'hidden by list')
+        # identical contents among hidden and visible files (only matters with -scan-for-duplicates)
+        same = b'identical content shared by a hidden and a visible file' * 3
+        mk('a-visible-copy.txt', 'file', same)
+        mk('secret-copy.bin', 'file', same)
+        mk('z-visible-copy.txt', 'file', same)
+        mk('jonly-copy.doc', 'file', same)
     if feature == 'mangle-collision':
         d = rng.choice(dirs)
         for nm in ('ab.c', 'AB.C', 'Ab.c', 'longfilename1.txt', 'longfilename2.txt', 'longfilename3.txt', 'x.y.z', 'x_y.z'):
@@ -281,7 +287,7 @@ def one_case(rec, work, src, iso, tree, feat, opts, views):
             fp.write('*.bak\n')
         with open(os.path.join(work, 'hide.lst'), 'w') as fp:
             fp.write('*.key\n')
-        opts = list(opts) + ['-m', '*.tmp', '-exclude-list', os.path.join(work, 'excl.lst'), '-hide', 'secret-*',
+        opts = list(opts) + (['-scan-for-duplicates'] if len(tree) % 2 and '-scan-for-duplicates' not in opts else []) + ['-m', '*.tmp', '-exclude-list', os.path.join(work, 'excl.lst'), '-hide', 'secret-*',
                              '-hide-list', os.path.join(work, 'hide.lst'), '-hide-joliet', 'jonly-*']
         for k, v in tree.items():
             base = os.path.basename(k)
